@@ -345,6 +345,9 @@ end''')(lua.table_from(forb))
 
 
 # ------------------------------------------------------------------ attacks
+SHADOW = {}      # attack name -> pages of a hostile store added (uncommitted, in the attack's own forked child) first
+
+
 def attacks(mod_ns="Module"):
     """(name, lua source of function body) -- each tries one route and then tries to do damage with what it got."""
     dmg = r'''
@@ -361,6 +364,17 @@ local function damage(x, tag)
   pcall(function() x.db_conn.execute("DELETE FROM pages") out = out .. "db;" end)
   pcall(function() x.builtins.open(PWNFILE .. tag .. "py", "w").write("pwn") out = out .. "pybuiltins;" end)
   pcall(function() x.eval("open('" .. PWNFILE .. tag .. "ev','w').write('pwn')") out = out .. "pyeval;" end)
+  return out
+end
+
+-- error VALUES: a Python exception that reaches Lua carries whatever Python put into it
+local function errdamage(e, tag)
+  if type(e) ~= "userdata" and type(e) ~= "table" then return "" end
+  local out = ""
+  for _, a in ipairs({"obj", "name", "value", "filename", "filename2", "object", "with_traceback", "add_note", "__traceback__", "__cause__", "__context__", "tb_frame"}) do
+    pcall(function() out = out .. damage(e[a], tag .. a) end)
+  end
+  pcall(function() for i = 0, 3 do out = out .. damage(e.args[i], tag .. "args") end end)
   return out
 end
 '''
@@ -387,6 +401,15 @@ end
     add("jsondecode-python-objects", "local ok, t = pcall(mw.text.jsonDecode, '{\\\"1\\\": {\\\"k\\\": \\\"v\\\"}, \\\"2\\\": [1,2]}') if ok and type(t) == 'table' then for k, v in pairs(t) do if type(v) == 'userdata' then out = out .. 'pyobj:' .. tostring(k) .. ';' pcall(function() v.clear() out = out .. 'mutated;' end) pcall(function() out = out .. damage(v.__class__, 'jd') end) end end end")
     add("loader-host-file", "for _, n in ipairs({HOSTLUA, HOSTLUA:gsub('^/', '//'), '..' .. HOSTLUA, 'x/../../../../../../../..' .. HOSTLUA, HOSTLUA:gsub('/', ':')}) do local ok, m = pcall(require, n) if ok and m then out = out .. 'HOSTFILE=' .. tostring(m) .. ';' end local ok2, d = pcall(mw.loadData, n) if ok2 and d then out = out .. 'HOSTFILE=' .. tostring(d) .. ';' end end")
     add("error-value-objects", "for k, v in pairs(_G) do if type(v) == 'userdata' then for _, a in ipairs({{}, {mw.title.getCurrentTitle().text, 99999}, {1, 2, 3}}) do local ok, e = pcall(v, unpack(a)) if not ok and type(e) == 'userdata' then pcall(function() out = out .. damage(e.obj, 'ev') end) pcall(function() out = out .. damage(e.args, 'eva') end) pcall(function() out = out .. damage(e.__traceback__, 'evt') end) end end end end")
+    add("error-values-of-failing-loads", "for _, n in ipairs({'no such module', 'Module:nosuch', '', 'a/b/c', 'mw.nosuch', 'libraryUtil2', string.rep('x', 300)}) do for _, L in ipairs({require, mw.loadData, mw.loadJsonData, package and package.loaders and package.loaders[2], _new_loader}) do if L then local ok, e = pcall(L, n) if not ok then out = out .. errdamage(e, 'el') end end end end")
+    add("error-values-of-failing-calls", "local bad = {{}, {frame, {title = 5}}, {frame, {title = 'x', args = 7}}, {frame, {text = {}}}, {frame, {name = {}, content = {}}}, {frame, 5}, {{}}, {nil, nil}, {frame, setmetatable({}, {__index = function() error('idx') end})}} "
+        "for _, T in ipairs({frame, mw, mw.title, mw.text, mw.ustring, mw.language, mw.uri, mw.site, mw.html, mw.message, mw.wikibase, mw.hash}) do if type(T) == 'table' then for k, v in pairs(T) do if type(v) == 'function' or type(v) == 'userdata' then for _, a in ipairs(bad) do local ok, e = pcall(v, unpack(a, 1, 2)) if not ok then out = out .. errdamage(e, 'ec') end end end end end end")
+    for lib in ("io", "os", "python", "package", "debug", "_G"):
+        for bi, body in enumerate(("", "return nil", "local x = 1", "return true")):
+            nm = "shadow-page-%s-%d" % (lib, bi)
+            SHADOW[nm] = [("Module:" + lib, body)]
+            add(nm, "local ok, m = pcall(require, '%s') if ok then out = out .. damage(m, 'sh') end ok, m = pcall(require, 'Module:%s') if ok then out = out .. damage(m, 'shm') end "
+                    "if package and package.loaded then out = out .. damage(package.loaded['%s'], 'shl') end out = out .. damage(_G['%s'], 'shg')" % (lib, lib, lib, lib))
     add("getfenv-levels", "if getfenv then for lv = 0, 6 do pcall(function() out = out .. damage(getfenv(lv), 'gf' .. lv) end) local ok, g = pcall(getfenv, lv) if ok then out = out .. damage(g, 'gfp' .. lv) end end end")
     add("loaddata-env", "local ok, d = pcall(mw.loadData, '%s:dat') if ok then out = out .. damage(getmetatable(d), 'ldm') end" % mod_ns)
     add("debug-lib", "if debug then for _, n in ipairs({'getinfo','getupvalue','getregistry','sethook','getfenv','setmetatable','getmetatable'}) do if debug[n] then out = out .. 'debug.' .. n .. ';' end end pcall(function() local r = debug.getregistry() out = out .. damage(r, 'reg') end) end")
@@ -430,6 +453,13 @@ def run_attacks(spec, obs):
             if pid == 0:
                 os.close(r)
                 try:
+                    for t, b in SHADOW.get(name, []):
+                        ctx.add_page(t, 828, b, model="Scribunto")
+                    if name in SHADOW:
+                        try:
+                            type(ctx).get_page.cache_clear()
+                        except AttributeError:
+                            pass
                     npages0 = ctx.db_conn.execute("SELECT count(*), coalesce(sum(length(body)),0) FROM pages").fetchone()
                     fields0 = (ctx.lang_code, ctx.project, str(ctx.db_path))
                     ctx.start_page("Pg")
